@@ -392,6 +392,21 @@ pub fn gen_normal(r: &mut Rng, w: &mut Wallet, cx: &Ctx) -> Option<Transaction> 
     fix_fee(w, &mut tx, &inputs, cx.mult, tip, change).then_some(tx)
 }
 
+/// an ordinary transaction that spends the given coin (plus a MEL coin for the fee when needed)
+pub fn gen_spend_of(r: &mut Rng, w: &mut Wallet, cx: &Ctx, forced: &WCoin) -> Option<Transaction> {
+    let mut inputs = vec![forced.clone()];
+    if forced.cdh.coin_data.denom != Denom::Mel || forced.cdh.coin_data.value.0 < 100_000 {
+        let mels: Vec<&WCoin> = cx.coins.iter().filter(|c| c.cdh.coin_data.denom == Denom::Mel && c.cdh.coin_data.value.0 > 100_000 && c.id != forced.id).collect();
+        if mels.is_empty() {
+            return None;
+        }
+        inputs.push((*r.pick(&mels)).clone());
+    }
+    let (outs, change) = balance(r, w, &inputs, vec![], cx.height);
+    let mut tx = assemble(w, TxKind::Normal, &inputs, outs, 0, vec![]);
+    fix_fee(w, &mut tx, &inputs, cx.mult, 0, change).then_some(tx)
+}
+
 pub fn gen_swap(r: &mut Rng, w: &mut Wallet, cx: &Ctx) -> Option<Transaction> {
     let key = *r.pick(cx.known_pools);
     cx.pools.get(&key)?;
